@@ -449,7 +449,7 @@ class Contract:
                  loops=None, prop=None, pure=False, invariant=(), locals=None, defaults=None,
                  is_property=False, name=None, assumed=False, names=None, reads=(), ghost_out=None,
                  shared=(), rely=(), suspends=False, next_raises=(), crash_invariant=(), escape_props=None,
-                 replay=None, observe=(), note=None, decreases=None, skip_args=(), fault_policy=None, frame_on_raise=False, merge_ifs=False, shards=1, ghost_update=(), eval_log_args=False):
+                 replay=None, observe=(), note=None, decreases=None, skip_args=(), fault_policy=None, frame_on_raise=False, merge_ifs=False, shards=1, ghost_update=(), eval_log_args=False, variants=None, split_and=True):
         self.file = file; self.func = func; self.params = params; self.ret = ret
         self.name = name or func
         props = prop if prop is not None else ''
@@ -465,7 +465,7 @@ class Contract:
         self.next_raises = list(next_raises); self.crash_invariant = clauses(crash_invariant)
         self.escape_props = set(escape_props) if escape_props is not None else None
         self.replay = replay; self.observe = list(observe); self.note = note; self.decreases = decreases
-        self.skip_args = set(skip_args); self.fault_policy = fault_policy; self.frame_on_raise = frame_on_raise; self.merge_ifs = merge_ifs; self.shards = shards; self.ghost_update = list(ghost_update); self.eval_log_args = eval_log_args
+        self.skip_args = set(skip_args); self.fault_policy = fault_policy; self.frame_on_raise = frame_on_raise; self.merge_ifs = merge_ifs; self.shards = shards; self.ghost_update = list(ghost_update); self.eval_log_args = eval_log_args; self.variants = variants; self.split_and = split_and
         if self.name in CONTRACTS: raise AssertionError('duplicate contract %s' % self.name)
         CONTRACTS[self.name] = self
 
@@ -584,9 +584,15 @@ def load_function(relpath, qualname):
         _src_cache[path] = (src, ast.parse(src))
     src, tree = _src_cache[path]
     node = tree
-    for part in qualname.split('.'):
+    want_setter = qualname.endswith('@setter')
+    qualname = qualname.replace('@setter', '')
+    parts = qualname.split('.')
+    for k, part in enumerate(parts):
         for child in node.body:
             if isinstance(child, (ast.FunctionDef, ast.ClassDef, ast.AsyncFunctionDef)) and child.name == part:
+                if k == len(parts) - 1 and isinstance(child, ast.FunctionDef):
+                    is_setter = any(isinstance(d, ast.Attribute) and d.attr == 'setter' for d in child.decorator_list)
+                    if is_setter != want_setter: continue
                 node = child; break
         else:
             raise ToolLimit('%s not found in %s' % (qualname, relpath))
